@@ -522,6 +522,7 @@ def cfg_units_from_schema(schema) -> Dict[tuple, U]:
             if fld.name not in names:
                 continue
             fenv = getattr(fi, "factory_env", None) or {}
+            clo = getattr(fi, "factory_closure", None)
             for node in ast.walk(fi.node):
                 if isinstance(node, ast.Call) and ast.unparse(node.func).split(".")[-1] == "parse_units" \
                         and len(node.args) == 2:
@@ -529,6 +530,13 @@ def cfg_units_from_schema(schema) -> Dict[tuple, U]:
                     if isinstance(ua, ast.Name) and ua.id in fenv:
                         ua = fenv[ua.id]        # unit captured from the factory call
                     us = ast.unparse(ua)
+                    if isinstance(ua, ast.Name) and clo is not None and clo.extra and ua.id in clo.extra.get("env", {}):
+                        cv = clo.extra["env"][ua.id]        # unit captured by the evaluated closure
+                        if cv.op == "Ext":
+                            us = cv.attr
+                        elif cv.op == "BinOp" and cv.attr == "Pow" and cv.args[0].op == "Ext" and \
+                                cv.args[1].op == "Const" and cv.args[1].attr == 2:
+                            us = cv.args[0].attr + "**2"
                     if us.endswith("m ** 2") or us.endswith("m**2"):
                         out[path] = M2
                     else:
